@@ -387,6 +387,108 @@ static std::string ukfc(Toks& t) {
     return o.str();
 }
 
+
+// ---------------------------------------------------------------------------------- UKF vs KF, several steps on the same objects
+
+// ukfps variant n nz a b kap exo | F | [G | Q (nz x nz) | Qeff (n x n)] or [Q (n x n)] | u | steps | (skip k means covs outw) x steps
+static std::string ukfps(Toks& t) {
+    long variant = t.nat(), n = t.nat(), nz = t.nat();
+    double a = t.dbl(), b = t.dbl(), kap = t.dbl(); bool exo = t.flag();
+    MatrixXd F = t.mat(n, n), G, Q, Qeff;
+    if (variant == 1) { G = t.mat(n, nz); Q = t.mat(nz, nz); Qeff = t.mat(n, n); } else { Q = t.mat(n, n); Qeff = Q; }
+    VectorXd u = t.vec(n);
+    long steps = t.nat();
+    std::unique_ptr<UKFPrediction> up;
+    if (variant == 0) {
+        std::unique_ptr<HLtiState> sm(new HLtiState(F, Q));
+        if (exo) sm->add_exogenous_model(std::unique_ptr<ExogenousModel>(new HConstExo(u)));
+        up.reset(new UKFPrediction(std::unique_ptr<AdditiveStateModel>(std::move(sm)), a, b, kap));
+    } else {
+        MatrixXd A(n, n + nz); A << F, G;
+        std::unique_ptr<StateModel> sm(new HGenState(A, exo ? u : VectorXd::Zero(n).eval(), Q, VectorDescription(n, 0, nz), VectorDescription(n)));
+        up.reset(new UKFPrediction(std::move(sm), a, b, kap));
+    }
+    std::unique_ptr<HLtiState> km(new HLtiState(F, Qeff));
+    if (exo) km->add_exogenous_model(std::unique_ptr<ExogenousModel>(new HConstExo(u)));
+    KFPrediction kp(std::move(km));
+    sigma_point::UTWeight w(VectorDescription(n, 0, variant == 1 ? nz : 0), a, b, kap);
+    Out o; o.s("ok");
+    for (long s = 0; s < steps; ++s) {
+        bool skip = t.flag(); long k = t.nat();
+        GaussianMixture prev(k, n), predU(k, n), predK(k, n);
+        prev.mean() = t.mat(n, k); prev.covariance() = t.mat(n, n * k);
+        VectorXd outw = t.vec(k);
+        predU.weight() = outw; predK.weight() = outw;
+        predU.mean().setConstant(12345.0); predU.covariance().setConstant(-54321.0);
+        predK.mean().setConstant(12345.0); predK.covariance().setConstant(-54321.0);
+        Snapshot s0(prev);
+        GaussianMixture inp = prev; if (variant == 1) inp.augmentWithNoise(Q);
+        MatrixXd X = sigma_point::sigma_point(inp, w.c);
+        up->getStateModel().skip("state", skip);
+        kp.getStateModel().skip("state", skip);
+        up->predict(prev, predU);
+        kp.predict(prev, predK);
+        if (s > 0) o.s(";;");
+        o.n((long)X.rows()); o.n((long)X.cols());
+        outGM(o, predU); outGM(o, predK); o.m(X); o.s(s0.same(prev) ? "in-same" : "in-modified");
+    }
+    t.done();
+    return o.str();
+}
+
+// ukfcs variant n nz m a b kap online | H | [D | R (nz x nz) | Reff (m x m)] or [R (m x m)] | steps | (fail k y means covs outw) x steps
+static std::string ukfcs(Toks& t) {
+    long variant = t.nat(), n = t.nat(), nz = t.nat(), m = t.nat();
+    double a = t.dbl(), b = t.dbl(), kap = t.dbl(); bool online = t.flag();
+    MatrixXd H = t.mat(m, n), D, R, Reff;
+    if (variant == 1) { D = t.mat(m, nz); R = t.mat(nz, nz); Reff = t.mat(m, m); } else { R = t.mat(m, m); Reff = R; }
+    long steps = t.nat();
+    VectorXd y0 = VectorXd::Zero(m);
+    HLtiMeas* um0 = nullptr; HGenMeas* um1 = nullptr;
+    std::unique_ptr<UKFCorrection> uc;
+    if (variant == 0) {
+        um0 = new HLtiMeas(H, R, y0, 0);
+        uc.reset(new UKFCorrection(std::unique_ptr<AdditiveMeasurementModel>(um0), a, b, kap));
+    } else {
+        MatrixXd A(m, n + nz); A << H, D;
+        um1 = new HGenMeas(A, VectorXd::Zero(m), R, y0, VectorDescription(n, 0, nz), VectorDescription(m), 0);
+        uc.reset(new UKFCorrection(std::unique_ptr<MeasurementModel>(um1), a, b, kap, online));
+    }
+    HLtiMeas* km = new HLtiMeas(H, Reff, y0, 0);
+    KFCorrection kc{std::unique_ptr<LinearMeasurementModel>(km)};
+    sigma_point::UTWeight w(VectorDescription(n, 0, variant == 1 ? nz : 0), a, b, kap);
+    Out o; o.s("ok");
+    for (long s = 0; s < steps; ++s) {
+        long fail = t.nat(), k = t.nat();
+        VectorXd y = t.vec(m);
+        GaussianMixture pred(k, n), corrU(k, n), corrK(k, n);
+        pred.mean() = t.mat(n, k); pred.covariance() = t.mat(n, n * k);
+        VectorXd outw = t.vec(k);
+        corrU.weight() = outw; corrK.weight() = outw;
+        corrU.mean().setConstant(12345.0); corrU.covariance().setConstant(-54321.0);
+        corrK.mean().setConstant(12345.0); corrK.covariance().setConstant(-54321.0);
+        if (um0) { um0->y_ = y; um0->fail_ = (int)fail; } else { um1->y_ = y; um1->fail_ = (int)fail; }
+        km->y_ = y; km->fail_ = (int)fail;
+        Snapshot s0(pred);
+        GaussianMixture inp = pred; if (variant == 1) inp.augmentWithNoise(R);
+        MatrixXd X = sigma_point::sigma_point(inp, w.c);
+        uc->correct(pred, corrU);
+        // After a failing model call the likelihood is not asked for: UKFCorrection keeps the previous step's
+        // innovations_ next to a predicted_meas_ overwritten by the failed transform (sizes disagree; see
+        // design-notes/C04.md, "found on the way") — outside C04, which speaks of successful steps only.
+        std::pair<bool, VectorXd> likU(false, VectorXd()), likK(false, VectorXd());
+        if (fail == 0) likU = uc->getLikelihood();
+        kc.correct(pred, corrK);
+        if (fail == 0) likK = kc.getLikelihood();
+        if (s > 0) o.s(";;");
+        o.n((long)X.rows()); o.n((long)X.cols());
+        outGM(o, corrU); outLik(o, likU); outGM(o, corrK); outLik(o, likK); o.m(X);
+        o.s(s0.same(pred) ? "in-same" : "in-modified");
+    }
+    t.done();
+    return o.str();
+}
+
 int main() {
     return vh::run([](const std::string& op, Toks& t, std::string& out) {
         if (op == "utw") { out = utw(t); return true; }
@@ -396,6 +498,8 @@ int main() {
         if (op == "utc") { out = utc(t); return true; }
         if (op == "ukfp") { out = ukfp(t); return true; }
         if (op == "ukfc") { out = ukfc(t); return true; }
+        if (op == "ukfps") { out = ukfps(t); return true; }
+        if (op == "ukfcs") { out = ukfcs(t); return true; }
         return false;
     });
 }
